@@ -362,7 +362,7 @@ fn gen_case(r: &mut Rng, max_jobs: u64, max_par: u64, avoid_custom_fail_with_soe
 fn main() {
     let tier = std::env::args().nth(1).unwrap_or_else(|| "quick".into());
     let seed: u64 = std::env::var("VERIF_SEED").ok().and_then(|s| s.parse().ok()).unwrap_or(0);
-    let vd = std::env::var("VERIF_DIR").unwrap_or_else(|_| "/scratch/c22".into());
+    let vd = std::env::var("VERIF_DIR").unwrap_or_else(|_| "/verif".into());
     let known: Vec<String> = std::fs::read_to_string(format!("{vd}/known_findings.jsonl"))
         .unwrap_or_default()
         .lines()
@@ -417,6 +417,13 @@ fn main() {
     }
     let total = executions.load(SeqCst);
     let g = found.lock().unwrap();
+    if std::env::var("VP_SHUTTLE_JSON").is_ok() {
+        // machine-readable result for the main harness (props/c22.rs), which applies known_findings.jsonl itself
+        let esc = |s: &str| s.chars().flat_map(|c| match c { '"' => "\\\"".chars().collect::<Vec<_>>(), '\\' => "\\\\".chars().collect(), '\n' => "\\n".chars().collect(), c if (c as u32) < 0x20 => " ".chars().collect(), c => vec![c] }).collect::<String>();
+        let items: Vec<String> = g.iter().map(|(sig, (n, d))| format!("{{\"sig\":\"{}\",\"n\":{n},\"detail\":\"{}\"}}", esc(sig), esc(&d.chars().take(900).collect::<String>()))).collect();
+        println!("JSON {{\"cases\":{cases},\"random_pct\":{random_execs},\"dfs\":{},\"dfs_cases\":{dfs_cases},\"dfs_complete\":{dfs_complete},\"found\":[{}]}}", total - random_execs, items.join(","));
+        std::process::exit(0);
+    }
     let mut violations = 0;
     for (sig, (n, detail)) in g.iter() {
         if known.iter().any(|k| k == sig) {
